@@ -183,7 +183,7 @@ func (FaultOracle) NonTrivial(w *world.World, ctx sdk.Context, s *engine.State) 
 func C19Scenario(tier string) *engine.Scenario {
 	d := 4
 	if tier == "thorough" {
-		d = 5
+		d = 6
 	}
 	fish := []int{world.W, world.Q}
 	sc := &engine.Scenario{ID: "C19-faults", Cfg: world.Config{Fishmen: fish}, Depth: d, Oracle: FaultOracle{Fishmen: fish}}
